@@ -124,6 +124,7 @@ func Run(o Options) (*Result, error) {
 	if o.Deque {
 		args = append(args, "-Dtlc2.tool.queue.IStateQueue=StateDeque")
 	}
+	args = append(args, "-Djava.io.tmpdir="+scratch) // TLC leaves empty tlc-<n> directories in the JVM's temp dir
 	args = append(args, "-cp", jar+":"+deps, "tlc2.TLC", "-workers", strconv.Itoa(o.Workers),
 		"-metadir", filepath.Join(scratch, "meta"), "-config", o.Config)
 	if o.Simulate != "" {
